@@ -38,8 +38,32 @@ fn run(ctx: &Ctx) {
 
 fn ending(t: &mut Tape, dtls: bool, valid: &[u8]) -> (&'static str, Vec<u8>) {
     let hdr = if dtls { 13 } else { 5 };
-    match t.below(7) {
+    match t.below(8) {
         0 => ("nothing", vec![]),
+        7 => {
+            // complete records of content types the parsers do not decode but a TLS / DTLS 1.3 peer sends: DTLS 1.3 ACK (26) with a
+            // well-formed list of record numbers, connection-id records (25), a heartbeat (24)
+            let ct = t.pick(&[26u8, 26, 25, 24]);
+            let body: Vec<u8> = match ct {
+                26 => {
+                    let n = t.below(3);
+                    let mut e = Enc::new();
+                    e.vec(2, "ack.numbers", &vec![0x11; 16 * n]);
+                    e.buf
+                }
+                25 => t.small_blob(30),
+                _ => vec![1, 0, 2, 0xaa, 0xbb],
+            };
+            let mut e = Enc::new();
+            e.u8(ct);
+            e.u16(if dtls { 0xfefd } else { 0x0303 });
+            if dtls {
+                e.u16(t.below(3) as u16);
+                e.u48(t.below(1000) as u64);
+            }
+            e.vec(2, "rec.len", &body);
+            ("tls13-era-content-type", e.buf)
+        }
         6 => {
             // a record over the cap whose payload is fully present and decodable: the single-record parser refuses it (TooLarge)
             let l = t.pick(&[16641usize, 16642, 17000, 20000]);
@@ -114,6 +138,41 @@ fn ending(t: &mut Tape, dtls: bool, valid: &[u8]) -> (&'static str, Vec<u8>) {
     }
 }
 
+/// the records of one side of a handshake, as they follow each other on the wire
+fn flight(t: &mut Tape) -> Vec<MRecord> {
+    let hs = |msgs: Vec<MHs>| MRecord { ctype: 0x16, version: 0x0303, msgs: msgs.into_iter().map(MMsg::Hs).collect(), padding: vec![] };
+    let ccs = || MRecord { ctype: 0x14, version: 0x0303, msgs: vec![MMsg::Ccs], padding: vec![] };
+    let app = |n: usize| MRecord { ctype: 0x17, version: 0x0303, msgs: vec![MMsg::AppData(vec![0x17; n])], padding: vec![] };
+    let tls13_sh = |t: &mut Tape| MHs::ServerHello {
+        version: 0x0303,
+        random: if t.chance(60) { HRR_RANDOM.to_vec() } else { t.bytes(32) },
+        sid: Some(t.bytes(32)),
+        cipher: t.pick(&[0x1301u16, 0x1302, 0x1303]),
+        comp: 0,
+        ext: Some({ let mut e = Enc::new(); MExt::SupportedVersions(vec![0x0304], true).encode(&mut e); MExt::KeyShare({ let mut k = vec![0, 0x1d, 0, 32]; k.extend(t.bytes(32)); k }).encode(&mut e); e.buf }),
+    };
+    match t.below(5) {
+        // TLS 1.3 server flight with the middlebox-compatibility ChangeCipherSpec, then protected records
+        0 => vec![hs(vec![tls13_sh(t)]), ccs(), app(40), app(300), app(19)],
+        // HelloRetryRequest-shaped ServerHello, CCS, second ServerHello
+        1 => vec![hs(vec![tls13_sh(t)]), ccs(), hs(vec![tls13_sh(t)]), app(64)],
+        // TLS 1.2 full handshake, server side, in one record or several
+        2 => {
+            let sh = gen_hs_kind(t, 2, 120);
+            let cert = gen_hs_kind(t, 7, 300);
+            if t.bool() {
+                vec![hs(vec![sh, cert, MHs::ServerKeyExchange(t.small_blob(60)), MHs::ServerDone(vec![])])]
+            } else {
+                vec![hs(vec![sh]), hs(vec![cert]), hs(vec![MHs::ServerKeyExchange(t.small_blob(60))]), hs(vec![MHs::ServerDone(vec![])])]
+            }
+        }
+        // client second flight and session resumption: key exchange, CCS, encrypted Finished as opaque handshake bytes is not decodable -> app data here
+        3 => vec![hs(vec![MHs::ClientKeyExchange(gen_cke_body(t, 80))]), ccs(), app(40)],
+        // alerts around application data, ending with close_notify
+        _ => vec![app(10), MRecord { ctype: 0x15, version: 0x0303, msgs: vec![MMsg::Alert(1, 90), MMsg::Alert(1, 0)], padding: vec![] }, app(3), MRecord { ctype: 0x15, version: 0x0303, msgs: vec![MMsg::Alert(1, 0)], padding: vec![] }],
+    }
+}
+
 fn t_below(t: &mut Tape, n: usize) -> usize {
     t.below(n)
 }
@@ -133,16 +192,26 @@ fn tls_many(t: &mut Tape, obs: &mut Obs) -> R {
         let n = t.below(9);
         (n, (0..n).map(|_| gen_record(t)).collect())
     };
-    let mut buf = Vec::new();
-    for r in &recs {
-        buf.extend(r.to_bytes());
-    }
+    // now and then the records of a real flight instead of independent ones (what follows what matters to code that "knows" TLS)
+    let (n, recs) = if n <= 8 && t.chance(70) { let f = flight(t); (f.len(), f) } else { (n, recs) };
     let probe = gen_record(t).to_bytes();
     let (en, mut end) = ending(t, false, &probe);
     if en == "garbage" && t.chance(40) {
         end.extend(std::iter::repeat(0xff).take(t.pick(&[65536usize, 100_000, 300_000])));
     }
-    buf.extend_from_slice(&end);
+    // the undecodable part usually comes last; one time in three it sits between valid records (they then stay in the remainder)
+    let pos = if n > 0 && t.chance(85) { t.below(n + 1) } else { n };
+    let mut buf = Vec::new();
+    for (i, r) in recs.iter().enumerate() {
+        if i == pos {
+            buf.extend_from_slice(&end);
+        }
+        buf.extend(r.to_bytes());
+    }
+    if pos >= n {
+        buf.extend_from_slice(&end);
+    }
+    let (n, recs) = (pos.min(n), recs[..pos.min(n)].to_vec());
     if n >= 2 || !end.is_empty() {
         obs.nontrivial(fnv64(&buf));
     }
@@ -212,16 +281,23 @@ fn dtls_many(t: &mut Tape, obs: &mut Obs) -> R {
         let n = t.below(6);
         (n, (0..n).map(|_| gen_dtls_record(t)).collect())
     };
-    let mut buf = Vec::new();
-    for r in &recs {
-        buf.extend(r.to_bytes());
-    }
     let probe = gen_dtls_record(t).to_bytes();
     let (en, mut end) = ending(t, true, &probe);
     if en == "garbage" && t.chance(40) {
         end.extend(std::iter::repeat(0xff).take(t.pick(&[65536usize, 100_000, 300_000])));
     }
-    buf.extend_from_slice(&end);
+    let pos = if n > 0 && t.chance(85) { t.below(n + 1) } else { n };
+    let mut buf = Vec::new();
+    for (i, r) in recs.iter().enumerate() {
+        if i == pos {
+            buf.extend_from_slice(&end);
+        }
+        buf.extend(r.to_bytes());
+    }
+    if pos >= n {
+        buf.extend_from_slice(&end);
+    }
+    let (n, recs) = (pos.min(n), recs[..pos.min(n)].to_vec());
     if n >= 2 || !end.is_empty() {
         obs.nontrivial(fnv64(&buf));
     }
